@@ -55,10 +55,13 @@ Clauses == [
 DataflowClause ==
   Obs.flow.on =>
     /\ Obs.flow.p0_ok
-    /\ \A k \in 1..Len(MLines) : \A j \in 1..Len(MLines[k].c) :
-          /\ MLines[k].c[j].pin_ok /\ MLines[k].c[j].xin_ok /\ MLines[k].c[j].args_ok
-    /\ \A k \in 1..Len(ALines) : ALines[k].dt_ok              \* propagation interval = the step the result index takes
-    /\ (Obs.flow.rows_ok => Obs.flow.sd_ok /\ Obs.flow.est_ok /\ Obs.flow.comp_ok)
+    /\ \A k \in 1..Len(MLines) :
+          /\ MLines[k].pva_ok        \* the measurement models see the computed trajectory interpolated AT the epoch between the bracketing rows
+          /\ \A j \in 1..Len(MLines[k].c) :
+                /\ MLines[k].c[j].pin_ok /\ MLines[k].c[j].xin_ok /\ MLines[k].c[j].args_ok
+    /\ \A k \in 1..Len(ALines) : ALines[k].dt_ok /\ ALines[k].fq_ok  \* propagation interval = the step the result index takes; (F, Q) = the joint
+                                                                   \* system of JointSystem.tla's block terms at the mid-point state
+    /\ (Obs.flow.rows_ok => Obs.flow.sd_ok /\ Obs.flow.est_ok /\ Obs.flow.comp_ok) /\ Obs.flow.innov_ok
          \* result rows: sd = sqrt(diag(T P T')), sensor tables = x blocks, compensated trajectory = computed - T x, all of the
          \* (x, P) held when the row was recorded
 Failing == {c \in DOMAIN Clauses : ~Clauses[c]} \cup (IF DataflowClause THEN {} ELSE {"dataflow"})
